@@ -269,6 +269,9 @@ func (r *R) Gen(ctx ctxT, g *hx.Rng) string {
 		if g.Chance(1, 4) {
 			direct = " direct=1"
 		}
+		if g.Chance(1, 8) {
+			return fmt.Sprintf("params ghost_update module=%s sender=%s %s%s", mod, sender, fields, direct)
+		}
 		return fmt.Sprintf("params update module=%s sender=%s %s%s", mod, sender, fields, direct)
 	case 2:
 		return fmt.Sprintf("params genesis module=%s %s", mod, genFields(g, mod))
